@@ -329,6 +329,7 @@ func (x *Exec) runBlock(fr *Frame, b *ssa.BasicBlock, idx int, st *State, k cont
 				continue
 			}
 			call := in.(*ssa.Call)
+			x.checkCallsites(fr, st, call)
 			x.doCall(fr, st, call, call.Common(), nil, func(st2 *State, rets []Value) {
 				fr2 := fr.clone()
 				var rv Value
@@ -1019,6 +1020,14 @@ func calleeNames(cc *ssa.CallCommon) []string {
 	if cc.IsInvoke() {
 		return []string{cc.Method.Name()}
 	}
+	// a function value loaded from a struct field is named after the field (fs.callerCancel())
+	if u, ok := cc.Value.(*ssa.UnOp); ok && u.Op == token.MUL {
+		if fa, ok := u.X.(*ssa.FieldAddr); ok {
+			if st, ok := types.Unalias(fa.X.Type().Underlying().(*types.Pointer).Elem()).Underlying().(*types.Struct); ok {
+				return []string{st.Field(fa.Field).Name()}
+			}
+		}
+	}
 	if fn := cc.StaticCallee(); fn != nil {
 		out := []string{fn.Name()}
 		if r := fn.Signature.Recv(); r != nil {
@@ -1105,5 +1114,32 @@ func (x *Exec) checkSpawn(fr *Frame, st *State, g *ssa.Go) {
 	for _, r := range c.Requires {
 		goal := x.evalClause(env, c, "requires "+r.Label, r.Expr)
 		x.check(st, fmt.Sprintf("%sspawn.pre.%s.%s@%d", fr.prefix, calleeShort(c.Key), r.Label, ord), goal, g.Pos())
+	}
+}
+
+
+// checkCallsites: `callsite <callee> requires "label" expr` - the expression must hold in the state in which the
+// function under contract calls <callee> (ordering facts a postcondition cannot state).
+func (x *Exec) checkCallsites(fr *Frame, st *State, call *ssa.Call) {
+	if x.c == nil || len(x.c.Callsites) == 0 || fr.fn != x.fn {
+		return
+	}
+	names := calleeNames(call.Common())
+	for _, cs := range x.c.Callsites {
+		hit := false
+		for _, n := range names {
+			if n == cs.Callee {
+				hit = true
+			}
+		}
+		if !hit {
+			continue
+		}
+		env := &Env{eng: x.eng, st: st, vars: map[string]tv{}, pkg: x.eng.typesPkg(x.c.Pkg), old: heapSnap{}, oldTop: st.top0}
+		for n, v := range x.params {
+			env.vars[n] = v
+		}
+		g := x.evalClause(env, x.c, "callsite "+cs.Callee+" "+cs.Label, cs.Expr)
+		x.check(st, fmt.Sprintf("%scallsite.%s.%s@%d", fr.prefix, cs.Callee, cs.Label, x.ordinal(fr.fn, call, "call")), g, call.Pos())
 	}
 }
